@@ -374,12 +374,20 @@ def calibrate(ctx):
         "objmap-key": U('c2"Pt"1{s1"x"}o0{1}', {"k": "map", "key": I, "e": I}),
         "array-neg": U("a-100000000{}", {"k": "array", "n": 2, "e": {"k": "int"}}),
         "client-count": {"entry": "client", "hex": b"Ra-1{}z".hex(), "rt": [{"k": "int"}, {"k": "int"}]},
-        # behavioural repairs
-        "fx_neg": U("a-1{}", {"k": "slice", "e": {"k": "int"}}),
-        "fx_count": U("a9{}", {"k": "slice", "e": {"k": "int"}}),
+        # behavioural repairs (a count that is negative or larger than the bytes left is refused, per site)
+        "fx_count-slice": U("a99999{", {"k": "slice", "e": {"k": "int"}}),
+        "fx_count-names": U('c1"A"99999{}'),
+        "fx_count-uint8": U("a99999{", {"k": "bytes"}),
+        "fx_count-args": {"entry": "service", "hex": b'Cs3"add"a99999{}z'.hex(), "svc": "a"},
+        "fx_count-map": U("m99999{"),
+        "fx_count-listmap": U("a99999{", {"k": "map", "key": {"k": "int"}, "e": {"k": "int"}}),
+        "fx_count-array": dict(U("a5{1}", {"k": "array", "n": 2, "e": {"k": "int"}}), dump=True),
+        "fx_count-objmap": dict(U('m9{s1"x"5}', {"k": "reg", "name": "Pt"}), dump=True),
         "fx_loop": dict(U("a3{x12}", {"k": "slice", "e": {"k": "int"}}), dump=True),
         "fx_next": U('b70000"ab'),
         "fx_str": U('s70000"ab'),
+        "fx_refnil": {"entry": "client", "hex": b"Ra2{1r0;}z".hex(), "rt": [{"k": "int"}, {"k": "string"}]},
+        "fx_strmap": dict(U('a2{c1"X"1{s1"f"}o0{n}r2;}', {"k": "slice", "e": {"k": "string"}}, "ref"), dump=True),
     }
     names = sorted(wit)
     cases = []
@@ -398,19 +406,23 @@ def calibrate(ctx):
     for i, n in enumerate(names):
         o = obs.get(i)
         if n.startswith("fx_"):
+            key = n[3:]
             if o is None:
-                fx[n] = False
-            elif n == "fx_neg":
-                fx[n] = o["outcome"] == "error"
-            elif n == "fx_count":
-                # a9{} : the tree decodes "}" as an element and reports an invalid tag; a count check reports first
-                fx[n] = o["outcome"] == "error" and "invalid tag" not in o.get("err", "") and o.get("errclass") != "eof"
-            elif n == "fx_loop":
+                fx[key] = False
+            elif key in ("count-array",):
+                fx[key] = o["outcome"] == "error" and o.get("dump") == "[0 0]"
+            elif key == "count-objmap":
+                fx[key] = o["outcome"] == "error" and o.get("dump") == "{0 0}"
+            elif key.startswith("count-") or key in ("next", "str"):
+                fx[key] = o["alloc"] < 60000
+            elif key == "loop":
                 # the tree goes on decoding 1 and 2 after the bad element; a loop that stops leaves them 0
-                fx[n] = o["outcome"] == "error" and o.get("dump") == "[0 0 0]"
-            elif n in ("fx_next", "fx_str"):
-                fx[n] = o["alloc"] < 60000
-            detail[n] = None if o is None else (o["outcome"], o.get("errclass"), o["alloc"])
+                fx[key] = o["outcome"] == "error" and o.get("dump") == "[0 0 0]"
+            elif key == "refnil":
+                fx[key] = o["outcome"] == "error"
+            elif key == "strmap":
+                fx[key] = "map[" not in (o.get("dump") or "")
+            detail[n] = None if o is None else (o["outcome"], o.get("errclass"), o["alloc"], o.get("dump"))
         else:
             is_panic = (o is None) or o["outcome"] == "panic"
             if not is_panic:
@@ -682,7 +694,7 @@ def run(ctx):
         raise hv.EnvError("c04 executor cannot produce its seed corpus: " + err[-500:])
     seeds = obs[0]["seeds"]
     checked, fx, detail = calibrate(ctx)
-    fixbits = "".join("1" if fx.get(k) else "0" for k in ("fx_count", "fx_neg", "fx_loop", "fx_next", "fx_str"))
+    fixbits = ",".join(sorted(k for k, v in fx.items() if v)) or "-"
     checked_s = ",".join(checked) if checked else "-"
     ctx.note("tree_checks", {"checked_sites": checked, "behavioural_repairs": fx, "witnesses": detail})
 
